@@ -281,6 +281,29 @@ def run_hourly(case, res):
             loads[h] = w
     if case.get("int_loads"):
         loads = [int(x) for x in loads]  # whole Watts given as Python ints (a load file read with int())
+    if case.get("ndarray_calls"):
+        # the caller's own float array covering the whole period, and several hourly runs on the same object: every run answers for the
+        # loads the caller supplied, and the caller's array is left alone
+        months = case["cfg"].get("months", 12)
+        arr = np.array((loads * (months // 12))[: 8760 * (months // 12)], dtype=float)
+        keep = arr.copy()
+        coords0 = coords_for(case["cfg"]["N"])
+        gf0 = ghe_factory.table_gfunction(coords0, 5.0 if len(coords0) > 1 else 0.075, HEIGHTS, 0.075)
+        g0 = ghe_factory.make_ghe(coords0, pipe=case["cfg"].get("pipe", "single"), H=97.5, flow_per_bh=0.3, gfunc=gf0, months=months, loads=arr)
+        first = None
+        for k in range(case["ndarray_calls"]):
+            res["evals"] += 1
+            g0.simulate(method=TimestepType.HOURLY)
+            cur = [float(v) for v in g0.hp_eft]
+            if first is None:
+                first = cur
+            elif len(cur) != len(first) or max(abs(a - b) for a, b in zip(cur, first)) > 1e-9:
+                res["violations"].append(core.viol("hourly_run_depends_on_earlier_runs", dict(case, ndarray_calls=k + 1), msg=f"hourly run #{k + 1} on the same object (loads handed over as the caller's float array) differs from run #1 by up to "
+                                                   f"{max(abs(a - b) for a, b in zip(cur, first)) if len(cur) == len(first) else float('inf')} K"))
+                break
+        if not np.array_equal(arr, keep):
+            res["violations"].append(core.viol("caller_loads_modified", case, msg="the caller's load array was modified by simulate(HOURLY)"))
+        loads = list(keep[:8760])
     cfg = dict(case["cfg"], loads=None)
     coords = coords_for(cfg["N"])
     gf = ghe_factory.table_gfunction(coords, 5.0 if len(coords) > 1 else 0.075, HEIGHTS, 0.075, curve=cfg.get("curve", "base"))
@@ -398,6 +421,8 @@ def main(run: core.Run, only=None):
     hourly.append({"family": "hourly", "cfg": {"N": 4, "pipe": "coaxial", "months": 12, "H": 60.0}, "blocks": [[0, 24, -5000.0]], "retarget": 135.0})
     hourly.append({"family": "hourly", "cfg": {"N": 4, "pipe": "single", "months": 12}, "blocks": [[10, 5, 4000], [6000, 48, -3000], [8000, 2, 1]], "int_loads": True})
     hourly.append({"family": "hourly", "cfg": {"N": 1, "pipe": "coaxial", "months": 24}, "blocks": [[0, 24, -5000], [4000, 3, 2500]], "int_loads": True})
+    hourly.append({"family": "hourly", "cfg": {"N": 4, "pipe": "single", "months": 12}, "blocks": [[0, 8760, -2500.0], [100, 50, -6000.0]], "ndarray_calls": 3})
+    hourly.append({"family": "hourly", "cfg": {"N": 1, "pipe": "single", "months": 24}, "blocks": [[2000, 3000, 1500.0]], "ndarray_calls": 2})
     run.drive(hourly, family="hourly")
     rep = [{"family": "repeat", "cfg": {"N": n, "pipe": p, "H_table": 97.5, "rb_table": rbt, "rb": 0.075, "curve": c}, "seq": [[1.0, 730.0], [-0.5, 24.0], [2.0, 6.0]], "calls": calls}
            for n, p, c in ((4, "single", "base"), (1, "coaxial", "steep")) for rbt in (0.06, 0.075, 0.09)
